@@ -1461,6 +1461,21 @@ def run_history(nap, res, base, aux, ops, line, styles=None, source=None):
             g2, st2, ex = None, None, e
         mo = parse_state(steps[i + 1]) if i + 1 < len(steps) else None
         res.count("op_" + op[0])
+        # the receiver and the second operand are still the groups they were: their keys, members, supports, rates and metadata are read again AFTER the
+        # operation (seed C12-7: merge_group renumbered the rate table of its first operand in place, visible only on the next use of that operand)
+        for who, obj, was in (("receiver", g, st), ("operand", ga if op[0] == "mwith" else None, aux_st)):
+            if obj is None or was is None:
+                continue
+            try:
+                now = impl_state(obj)
+                bad = None if same_state(was, now) else "state differs after the call"
+            except Exception as e2:
+                now, bad = None, "reading it back raises %s: %s" % (type(e2).__name__, str(e2)[:80])
+            if bad:
+                res.violations.append({"key": {"op": op[0], "part": "operand_changed_by_operation", "which": who},
+                                       "what": "the %s of %s is no longer the group it was (keys / members / support / rates / metadata): %s" % (who, op[0], bad),
+                                       "input": dict(inp, step=i), "impl": now, "expected": was})
+        res.count("operands_read_back_after_op")
         if sty is not None:
             for u in sty.get("used", []):
                 res.count("opform:" + u)
